@@ -91,6 +91,10 @@ def blocked_forever(threads, watch=1.0, samples=5):
     first = None
     for i in range(samples):
         snap = snapshot()
+        everyone = snapshot(exclude_harness=False)
+        for ident in idents:
+            if ident in everyone:
+                snap[ident] = everyone[ident]
         for ident in idents:
             if ident not in snap:
                 return False
